@@ -77,11 +77,17 @@ class Tracker(object):
     """Shutdown phase bookkeeping of one world."""
     def __init__(self):
         self.kind = None          # None | 'cluster' | 'session'
-        self.phase = None         # None (not shut down) | 'in' (inside the shutdown call) | 'returned'
+        # None (not shut down) | 'in' (inside the shutdown call) | 'draining' (Cluster.shutdown() has done its own
+        # work -- flags set, scheduler, control connection and sessions shut down -- and is inside
+        # executor.shutdown(wait=True), i.e. only waits for tasks) | 'returned'; suffix '2' = the cluster shutdown
+        # that follows a judged Session.shutdown()
+        self.phase = None
         self.at_shutdown = {}     # flags describing the state the shutdown was injected into
         self.stage2 = False       # session shutdown already followed by the cluster's
         self.shutdown_exc = None
         self.activity = {}        # thread -> phase in which the executor task it is running was started
+        self.attempt_end = {}     # thread -> phase in which the latest connection attempt of its current activity ended
+        self.attempt_log = []     # [phase at the start of Connection.factory(), phase at its end, 'connected'|'failed']
 
     @staticmethod
     def me():
@@ -92,6 +98,19 @@ class Tracker(object):
         """phase in which the activity that is running now began: for code inside an executor task the
         phase at the start of the task, else the current phase"""
         return self.activity.get(self.me(), self.phase)
+
+    def begin_activity(self):
+        """A new activity (executor task, explorer event) begins on this thread."""
+        self.attempt_end.pop(self.me(), None)
+
+    def attempt_ended(self):
+        """The running activity's connection attempt is over (factory returned or raised, or the activity
+        called close() on a connection): from here on the activity can know about a completed shutdown."""
+        self.attempt_end[self.me()] = self.phase
+
+    def draining(self):
+        if self.phase in ('in', 'in2'):
+            self.phase = 'draining' + self.phase[2:]
 
 
 class _HandshakeEvent(VEvent):
@@ -113,7 +132,10 @@ class C45Conn(VConnection):
     opened = False            # the server accepted the TCP connection
     open_phase = None         # shutdown phase when the connection object was constructed
     activity_phase = None     # shutdown phase when the executor task that constructed it was started
+    prev_attempt_end = None   # shutdown phase when the previous connection attempt of the same activity ended (None: first attempt
+    #                           of the activity, or the previous one ended before the shutdown was called)
     handshake_phase = 'never'
+    fault = None              # (kind, k): how the node treats this connection (None = serves it)
     _c45_ev = None
 
     @property
@@ -129,9 +151,61 @@ class C45Conn(VConnection):
         self.creator = 'control' if kw.get('is_control_connection') else _creator()
         self.open_phase = w.c45.phase
         self.activity_phase = w.c45.activity_phase()
+        self.prev_attempt_end = w.c45.attempt_end.get(w.c45.me())
+        self.use_log = []         # [keyspace, phase when the node received USE, phase when its answer was read]
         self.world = w
         VConnection.__init__(self, *a, **kw)     # raises when the server refuses the connection
         self.opened = True
+
+    @classmethod
+    def factory(cls, *a, **kw):
+        trk = RT.world.c45
+        rec = [trk.phase, None, 'failed']
+        trk.attempt_log.append(rec)
+        try:
+            conn = super(C45Conn, cls).factory(*a, **kw)
+            rec[2] = 'connected'
+            return conn
+        finally:
+            rec[1] = trk.phase
+            trk.attempt_ended()
+
+    def close(self):
+        # also when it is closed already: the caller is giving this connection up now
+        self.world.c45.attempt_ended()
+        VConnection.close(self)
+
+    def feed(self, data):
+        if data is EOF:
+            # what the shipped reactors do when recv() returns b'' (peer closed the connection)
+            self.world.trace('conn.eof', self.vid)
+            Connection_close_by_peer(self)
+            return
+        for u in self.use_log:
+            if u[2] is None:
+                u[2] = self.world.c45.phase or 'before'
+                break
+        VConnection.feed(self, data)
+
+
+class _Eof(bytes):
+    pass
+
+
+EOF = _Eof()      # outbox item: the node closed the connection (FIN) instead of sending a frame
+
+
+def Connection_close_by_peer(conn):
+    if not conn.is_closed:
+        VConnection.close(conn)     # not an act of the thread that reads the socket: no attempt_ended()
+
+
+# how a node can treat a new connection: (kind, k) = the first k requests on it are served, then
+#   'refuse'  the TCP connection is refused (k unused)                              -> OSError from the constructor
+#   'eof'     the node closes the connection instead of answering request k+1       -> ConnectionShutdown
+#   'mute'    request k+1 and everything after it is never answered                 -> OperationTimedOut
+#   'error'   request k+1 is answered with a server ERROR (overloaded)              -> ConnectionException (STARTUP) / the error
+FAULTS = {'refuse': ('refuse', 0), 'eof0': ('eof', 0), 'eof2': ('eof', 2), 'err1': ('error', 1), 'mute0': ('mute', 0), 'err4': ('error', 4)}
 
 
 def conn_name(c):
@@ -141,7 +215,8 @@ def conn_name(c):
 
 class C45World(object):
     """params: hosts, protocol_version, orphaned_threshold, reconnect_attempts, request_timeout, future_order,
-    legacy_pool=(core, max, max_requests_per_connection)"""
+    legacy_pool=(core, max, max_requests_per_connection), keyspace (of the session),
+    degraded={host index: fault name} (how that node treats every NEW connection from the end of the set-up on)"""
 
     def __init__(self, params, connect=True, manual=True):
         self.p = p = dict(params)
@@ -151,6 +226,10 @@ class C45World(object):
         self.w.c45 = self.trk = Tracker()
         self.w.c45_futseq = itertools.count(1)
         self.w.c45_future_order = p.get('future_order', 1)     # +1: sets iterate oldest future first, -1: newest first
+        self.faults = []          # rules [host address or None, connections left or None, (kind, k)]
+        self.held_texts = set()   # texts of application statements that are not plain SELECTs and are held like them
+        self._install_server_faults()
+        self._install_world_hooks()
         self._saved_future = _BaseFuture
         vworld.VFuture = DetFuture
         self._saved_threshold = C45Conn.orphaned_threshold
@@ -178,22 +257,98 @@ class C45World(object):
             self.n_exec = 0
             self.exec_errors = []
             if connect:
-                self.session = self.cluster.connect(wait_for_all_pools=True)
+                self.session = self.cluster.connect(p.get('keyspace'), wait_for_all_pools=True)
                 self.w.settle()
                 self.srv.hold = self._hold
                 self.w.manual = manual
+            for h, name in sorted((p.get('degraded') or {}).items()):
+                self.faults.append([self.srv.hosts[int(h)].address, None, FAULTS[name]])
         except BaseException:
             self.close()
             raise
 
-    @staticmethod
-    def _hold(conn, req):
-        """Application requests are held for the explorer; handshakes, REGISTER and system-table
-        reads are answered by the auto server."""
+    def _hold(self, conn, req):
+        """Application requests are held for the explorer; handshakes, REGISTER, system-table reads and
+        the USE statements the pools send on their own are answered by the auto server."""
         if req['op'] != 'QUERY':
             return False
         q = req.get('query', '')
+        if q in self.held_texts:
+            return True
         return not (' system.' in q or q.strip().upper().startswith('USE '))
+
+    # ------------------------------------------------------------------ world hooks / node faults
+    def _install_world_hooks(self):
+        """Every executor task is an activity of its own (also the ones the world runs by itself while a wait
+        pumps or executor.shutdown(wait=True) drains the queue); the drain is a shutdown phase."""
+        w, trk = self.w, self.trk
+        run_task, drain_executor = w.run_task, w.drain_executor
+
+        def tracked_run_task(index=0):
+            me = trk.me()
+            outer = trk.activity.get(me, Tracker)
+            trk.activity[me] = trk.phase
+            trk.begin_activity()
+            try:
+                return run_task(index)
+            finally:
+                trk.begin_activity()
+                if outer is Tracker:
+                    trk.activity.pop(me, None)
+                else:
+                    trk.activity[me] = outer
+
+        def tracked_drain(ex):
+            trk.draining()
+            return drain_executor(ex)
+        w.run_task, w.drain_executor = tracked_run_task, tracked_drain
+
+    def _install_server_faults(self):
+        srv = self.srv
+        on_connect, answer = srv.on_connect, srv.answer
+
+        def faulty_on_connect(conn):
+            on_connect(conn)                  # a dead node refuses anyway
+            for rule in self.faults:
+                if (rule[0] is None or rule[0] == conn.endpoint.address) and rule[1] != 0:
+                    if rule[1] is not None:
+                        rule[1] -= 1
+                    conn.fault = rule[2]
+                    break
+            if conn.fault is not None and conn.fault[0] == 'refuse':
+                conn.world.trace('conn.refused', conn.vid)
+                raise OSError(111, 'Tried connecting to [(%r, 9042)]. Last error: Connection refused' % (conn.endpoint.address,))
+
+        def faulty_answer(p, deliver=False):
+            conn = p.conn
+            st = conn.server_state
+            q = p.req.get('query', '') if p.req['op'] == 'QUERY' else ''
+            if q.strip().upper().startswith('USE '):
+                conn.use_log.append([q.strip()[4:].strip().strip('"'), self.trk.phase or 'before', None])
+            fault = getattr(conn, 'fault', None)
+            if fault is not None:
+                n = st['c45_served'] = st.get('c45_served', 0) + 1
+                if n > fault[1]:
+                    kind = fault[0]
+                    if p in srv.pending:
+                        srv.pending.remove(p)
+                    if kind == 'eof':
+                        if n == fault[1] + 1:
+                            srv.outbox.append((conn, EOF))
+                            if deliver:
+                                self.w.deliver_outbox()
+                        return
+                    if kind == 'mute':
+                        return
+                    if kind == 'error' and n == fault[1] + 1:
+                        srv.respond(p, wire.OP_ERROR, wire.error(wire.ERR_OVERLOADED, 'node is overloaded'), deliver=deliver)
+                        return
+            answer(p, deliver=deliver)
+        srv.on_connect, srv.answer = faulty_on_connect, faulty_answer
+
+    def fail_next_connection(self, name):
+        """The first connection attempt made from now on (to any node) is treated as FAULTS[name]."""
+        self.faults.insert(0, [None, 1, FAULTS[name]])
 
     def close(self):
         C45Conn.orphaned_threshold = self._saved_threshold
@@ -214,6 +369,21 @@ class C45World(object):
             return None
         (self.after if late else self.futures).append(f)
         return f
+
+    def use_keyspace(self, ks):
+        """The application sends USE <ks> through the session; the node's answer is held like the answer to any
+        other application request (the session keyspace changes when the answer is read)."""
+        text = 'USE %s' % ks
+        self.held_texts.add(text)
+        self.futures.append(self.session.execute_async(text))
+
+    def held_use(self):
+        return [p for p in self.pending() if p.req.get('query', '') in self.held_texts]
+
+    def release_use(self):
+        """The node answers the application's USE: the answer is on its way (read by the reactor in its turn)."""
+        for p in self.held_use()[:1]:
+            self.srv.answer(p, deliver=False)
 
     def respond(self, i):
         p = self.pending()[i]
@@ -245,18 +415,13 @@ class C45World(object):
         self.srv.push_event(self.control(), wire.event_topology('NEW_NODE', hs.address))
 
     def run_task(self, i=0):
-        """Run the i-th queued executor task, remembering in which shutdown phase it was started."""
-        trk = self.trk
-        me = trk.me()
-        trk.activity[me] = trk.phase
-        try:
-            self.w.run_task(i)
-        finally:
-            trk.activity.pop(me, None)
+        """Run the i-th queued executor task (the world hook remembers in which shutdown phase it was started)."""
+        self.w.run_task(i)
 
     def apply(self, ev):
         """One explorer event (plain data) applied to this world."""
         k = ev[0]
+        self.trk.begin_activity()
         if k == 'task':
             self.run_task(ev[1])
         elif k == 'sched':
@@ -277,6 +442,8 @@ class C45World(object):
             self.add_node()
         elif k == 'shutdown':
             self.shutdown(ev[1])
+        elif k == 'use':
+            self.use_keyspace(ev[1])
         else:
             raise ValueError(ev)
         self.w.deliver_outbox()
@@ -456,7 +623,7 @@ class C45World(object):
             part.violation('C45/%s/connection-left-open/%s/%s' % (kind, c.creator, how),
                            'after %s shutdown and drain %s is still open: %s; all: %s' % (
                                kind, conn_name(c), desc, ' '.join(conn_name(x) for x in w.conns if x.opened)), data)
-        after = {'cluster': ('returned',), 'session': ('returned', 'in2', 'returned2'), 'session-then-cluster': ('returned2',)}[kind]
+        after = {'cluster': ('returned',), 'session': ('returned', 'in2', 'draining2', 'returned2'), 'session-then-cluster': ('returned2',)}[kind]
         # a task that was already running when the shutdown was called may still open its connection (it
         # must then close it: clause above); an activity STARTED after the call returned must not open any
         for c in w.conns:
@@ -464,6 +631,19 @@ class C45World(object):
                 part.violation('C45/%s/connection-opened-after-shutdown/%s' % (kind, c.creator),
                                'a connection was opened by an activity that started after %s.shutdown() had returned: %s' % (
                                    trk.kind, conn_name(c)), data)
+        # ... and an activity that was under way may finish the attempt it is in, but once an attempt of it has ended
+        # (failed, timed out, given up) at a moment when the shutdown had done all its work (Cluster.shutdown() only waiting
+        # for the executor, or returned), it must not start another one (next host of a plan, retry)
+        done = {'cluster': ('draining', 'returned'), 'session': ('returned', 'in2', 'draining2', 'returned2'),
+                'session-then-cluster': ('draining2', 'returned2')}[kind]
+        for c in w.conns:
+            if c.prev_attempt_end in done and c.activity_phase not in after and (mine is None or c.creator in mine):
+                part.violation('C45/%s/new-attempt-after-shutdown/%s' % (kind, c.creator),
+                               'a new connection attempt was started although the previous attempt of the same activity had ended '
+                               'when %s.shutdown() had already %s: %s; all: %s' % (
+                                   trk.kind, 'returned' if c.prev_attempt_end.startswith('returned') else
+                                   'done all its work and was only waiting for the executor', conn_name(c),
+                                   ' '.join(conn_name(x) for x in w.conns if x.open_phase is not None)), data)
         if kind != 'session':
             left = [t[4] for t in w.tasks]
             if left:
@@ -505,7 +685,7 @@ def focus_codes():
 
 
 def run_schedule(st, s, clients, nworkers=1):
-    """Run one schedule: `clients` = [(name, fn)] are client threads; `nworkers` executor worker
+    """Run one schedule: `clients` = [(name, fn)] are client threads (and environment actors); `nworkers` executor worker
     threads run the queued tasks; one reactor thread delivers what the server sends.  A janitor
     thread (never enabled before the end) stops workers and reactor at quiescence."""
     w, srv = st.w, st.srv
@@ -514,6 +694,7 @@ def run_schedule(st, s, clients, nworkers=1):
     done = []
 
     def join_executor(ex):
+        st.trk.draining()
         s.block(lambda: busy[0] == 0 and not any(t[5] is ex for t in w.tasks), None, 'executor.shutdown(wait=True)')
     w.executor_join = join_executor
 
